@@ -7,15 +7,15 @@ WT=/tmp/tcss-sc-wt; HS=/tmp/tcss-sc-harness; TG=/tmp/tcss-sc-target
 if [ "$1" = "--clean" ]; then git -C /repo worktree remove --force $WT 2>/dev/null; rm -rf $WT $HS $TG /tmp/tcss-sc-out; git -C /repo worktree prune; exit 0; fi
 PATCH=$1; shift
 [ -d $WT ] || git -C /repo worktree add --detach $WT HEAD >/dev/null || exit 2
-( cd $WT && git checkout -q -- . && git clean -fdq ) || exit 2
+( cd $WT && git checkout -q -- . && git clean -fdq && git checkout -q --detach $(git -C /repo rev-parse HEAD) ) || exit 2
 PATCH_ABS=$(realpath "$PATCH" 2>/dev/null)
 if [ "$PATCH" != "none" ]; then ( cd $WT && git apply "$PATCH_ABS" ) || { echo "patch does not apply"; exit 2; }; fi
-mkdir -p $HS/.cargo; rm -rf $HS/src; cp -r /verif/harness/src /verif/harness/Cargo.toml /verif/harness/Cargo.lock $HS/
+if [ -z "$TCSS_SC_FREEZE" ] || [ ! -d $HS/src ]; then mkdir -p $HS/.cargo; rm -rf $HS/src; cp -r /verif/harness/src /verif/harness/Cargo.toml /verif/harness/Cargo.lock $HS/; fi
 sed -i "s|/repo/|$WT/|g" $HS/Cargo.toml
 printf '[net]\noffline = true\n[build]\ntarget-dir = "%s"\n' $TG > $HS/.cargo/config.toml
 ( cd $HS && cargo build --release --offline >/tmp/tcss-sc-build.log 2>&1 ) || { echo "MACHINERY: harness build failed"; tail -5 /tmp/tcss-sc-build.log; exit 2; }
 for id in "$@"; do
-  if [ "$id" = "C17" ] || [ "$id" = "C20" ] || [ "$id" = "C15" ]; then ( cd $WT && CARGO_TARGET_DIR=$TG/repo-bin cargo build --release --offline -p taskchampion-sync-server --bin taskchampion-sync-server >/tmp/tcss-sc-build.log 2>&1 ) || echo "server binary build failed"; fi
+  if [ "$id" = "C17" ] || [ "$id" = "C20" ] || [ "$id" = "C15" ] || [ "$id" = "C04" ]; then ( cd $WT && CARGO_TARGET_DIR=$TG/repo-bin cargo build --release --offline -p taskchampion-sync-server --bin taskchampion-sync-server >/tmp/tcss-sc-build.log 2>&1 ) || echo "server binary build failed"; fi
   out=$(TCSS_VERIF_DIR=/verif TCSS_OUT_DIR=/tmp/tcss-sc-out TCSS_SERVER_BIN=$TG/repo-bin/release/taskchampion-sync-server $TG/release/tcss-verif check $id ${TIER:-quick} 2>&1); rc=$?
   case $rc in
     0) echo "$id: MISSED";;
